@@ -84,7 +84,9 @@ type txGen struct {
 	// contracts deployed so far: code hash -> kind
 	counters  []common.Address
 	witnesses []common.Address
-	count     func(string)
+	// contracts recording CheckWitness(special address)
+	specialWitness []common.Address
+	count          func(string)
 }
 
 func newGen(r *rand.Rand, count func(string)) *txGen {
@@ -136,7 +138,64 @@ func (g *txGen) track() []string {
 		t = append(t, e.addr.ToHexString())
 	}
 	t = append(t, nutils.GovernanceContractAddress.ToHexString())
+	for _, a := range specialAddrs {
+		t = append(t, a.ToHexString())
+	}
 	return t
+}
+
+// specialAddrs: accounts no key controls; no transaction can carry their witness.
+var specialAddrs = []common.Address{common.ADDRESS_EMPTY, nutils.GovernanceContractAddress, nutils.OntContractAddress}
+
+// dupSignerTx: the same account appears in two signature sets (the validator's address map holds it
+// once), combined with an action that only a witness of a special address would allow: a transfer
+// FROM the zero / governance / ONT contract address, or a call of the contract recording
+// CheckWitness(special address).
+func (g *txGen) dupSignerTx() TxSpec {
+	gp, gl := g.gas()
+	special := specialAddrs[g.r.Intn(len(specialAddrs))]
+	var code []byte
+	action := "transfer-from-special"
+	if len(g.specialWitness) > 0 && g.r.Intn(2) == 0 {
+		action = "witness-of-special"
+		code = callScript(g.specialWitness[g.r.Intn(len(g.specialWitness))], g.r.Int63n(1000))
+	} else {
+		code = transferCode(g.token(), []*ont.TransferState{{From: special, To: g.anyAddr(), Value: uint64(1 + g.r.Intn(5))}})
+	}
+	tx := g.mtx(code, gp, gl)
+	kind := ""
+	switch g.r.Intn(3) {
+	case 0: // the same key, two 1-of-1 sets
+		a := g.accts[g.r.Intn(len(g.accts))]
+		tx.Payer = a.Address
+		signSingle(tx, a)
+		signSingle(tx, a)
+		if g.r.Intn(3) == 0 {
+			signSingle(tx, g.accts[g.r.Intn(len(g.accts))])
+		}
+		kind = "same-key-twice"
+	case 1: // a 1-of-1 set and a multi-signature set containing that key (two accounts, one key), either order
+		ma := g.multis[g.r.Intn(len(g.multis))]
+		a := ma.keys[g.r.Intn(len(ma.keys))]
+		tx.Payer = a.Address
+		if g.r.Intn(2) == 0 {
+			signSingle(tx, a)
+			signMulti(tx, ma, g.r)
+			signSingle(tx, a)
+		} else {
+			signMulti(tx, ma, g.r)
+			signSingle(tx, a)
+			signMulti(tx, ma, g.r)
+		}
+		kind = "single+multisig-containing-it"
+	default: // the same key set twice (signed by different subsets)
+		ma := g.multis[g.r.Intn(len(g.multis))]
+		tx.Payer = ma.addr
+		signMulti(tx, ma, g.r)
+		signMulti(tx, ma, g.r)
+		kind = "same-multisig-twice"
+	}
+	return TxSpec{rawOf(tx), "dup:" + kind + ":" + action}
 }
 
 func (g *txGen) mtx(code []byte, gasPrice, gasLimit uint64) *types.MutableTransaction {
@@ -204,6 +263,7 @@ func (g *txGen) fundingBlock() []TxSpec {
 	for _, m := range g.multis {
 		dst = append(dst, m.addr)
 	}
+	dst = append(dst, common.ADDRESS_EMPTY) // the zero address holds funds: a phantom zero witness would move them
 	var out []TxSpec
 	for _, tok := range []common.Address{nutils.OntContractAddress, nutils.OngContractAddress} {
 		var sts []*ont.TransferState
@@ -275,14 +335,30 @@ func (g *txGen) deployTx(counter bool, gp uint64) TxSpec {
 	return TxSpec{rawOf(tx), kind}
 }
 
+// deployWitnessOf deploys the contract that records CheckWitness(addr) for a special address.
+func (g *txGen) deployWitnessOf(addr common.Address) TxSpec {
+	dc, err := payload.NewDeployCode(witnessContract(addr), payload.NEOVM_TYPE, "c", "1", "a", "e", "d")
+	if err != nil {
+		panic(err)
+	}
+	a := g.accts[g.r.Intn(len(g.accts))]
+	g.nonce++
+	tx := &types.MutableTransaction{GasLimit: 20000, TxType: types.Deploy, Nonce: g.nonce, Payload: dc, Payer: a.Address}
+	signSingle(tx, a)
+	g.specialWitness = append(g.specialWitness, dc.Address())
+	return TxSpec{rawOf(tx), "deploy:witness-of-special"}
+}
+
 // randomTx draws one transaction; deploys are remembered so that later blocks can invoke them.
 func (g *txGen) randomTx() TxSpec {
 	gp, gl := g.gas()
-	k := g.r.Intn(15)
+	k := g.r.Intn(17)
 	if k == 5 && g.r.Intn(2) == 0 {
 		k = 0
 	}
 	switch k {
+	case 15, 16:
+		return g.dupSignerTx()
 	case 0, 1: // single-signer native transfer, every key type
 		a := g.accts[g.r.Intn(len(g.accts))]
 		amt := uint64(1 + g.r.Intn(50))
@@ -427,6 +503,9 @@ func (g *txGen) chain(nBlocks, maxTx int) *Input {
 		var blk []TxSpec
 		if b == 0 { // contracts for the later blocks to call
 			blk = append(blk, g.deployTx(true, 0), g.deployTx(false, 2500))
+			for _, sp := range specialAddrs {
+				blk = append(blk, g.deployWitnessOf(sp))
+			}
 		}
 		for i := 0; i < n; i++ {
 			blk = append(blk, g.randomTx())
